@@ -17,6 +17,12 @@ pub fn stub_to_string<T: ?Sized>(_t: &T) -> String {
     String::new()
 }
 
+/// anyhow captures a backtrace when an error is built: irrelevant here and very expensive to model
+#[cfg(kani)]
+pub fn stub_backtrace_capture() -> std::backtrace::Backtrace {
+    std::backtrace::Backtrace::disabled()
+}
+
 #[inline(always)]
 fn is_ok_forget<T, E>(r: Result<T, E>) -> Option<T> {
     // error values are never dropped (their drop glue explodes in CBMC): inspect and forget
